@@ -1,5 +1,5 @@
 """Common driver for the scenario-based properties."""
-import json, os, random, hashlib
+import json, os, random, hashlib, re
 from .. import framework as fw, pool, gen, witnesses, rt
 
 
@@ -47,7 +47,10 @@ def run_scn(ctx, scenarios, monitor, witness_ids=(), rule="", assumptions=None, 
             fails.append({"what": f"regression of fixed defect {w}: {msg}", "replay": {"witness": f"harness/witnesses.py:{w}"}, "signature": None})
     # minimise the first unknown failure / disagreement (so that the replay is small)
     for lst, kind in ((fails, "fail"), (r["diffs"], "diff")):
-        if lst and isinstance(lst[0].get("replay"), dict) and "ops" in lst[0]["replay"] and len(lst[0]["replay"]["ops"]) > 2:
+        # scenarios that carry harness-side ground truth (keys c03, c05, c09, ...) are not shrunk: dropping an operation
+        # would silently invalidate the ground truth and the "minimised" replay would fail on correct code as well
+        if lst and isinstance(lst[0].get("replay"), dict) and "ops" in lst[0]["replay"] and len(lst[0]["replay"]["ops"]) > 2 \
+                and not any(re.fullmatch(r"c\d\d", k) for k in lst[0]["replay"]):
             target = lst[0]
             key = target["what"][:40]
 
